@@ -5,10 +5,13 @@
      AlmPanocDir.alm_panoc_dir (ALM ∘ PanocDir.panocD with the SHIPPED providers of Directions.v)
      AlmZeroFprDir.alm_zerofpr_dir (ALM ∘ ZeroFprDir.zerofprD with the SHIPPED providers of Directions.v, both values of
                                update_direction_from_prox_step)
+     AlmPantrDir.alm_pantr_dir (ALM ∘ PantrDir.pantrD with the SHIPPED trust-region provider DirectionsTR.newton_tr_dir over
+                               Steihaug.cg_solve; exact Hessian products and finite differences)
    at binary64 against the real
      ALMSolver<ZeroFPRSolver<ScriptedDirection>>, ALMSolver<PANTRSolver<ScriptedTRDirection>>, ALMSolver<FISTASolver>,
      ALMSolver<PANOCSolver<LBFGSDirection | StructuredLBFGSDirection | AndersonDirection | NoopDirection>>,
-     ALMSolver<ZeroFPRSolver<LBFGSDirection | StructuredLBFGSDirection | AndersonDirection | NoopDirection>>
+     ALMSolver<ZeroFPRSolver<LBFGSDirection | StructuredLBFGSDirection | AndersonDirection | NoopDirection>>,
+     ALMSolver<PANTRSolver<NewtonTRDirection>>
    as run by harness/drv_solve.cpp (mode "alm" / "alm_nosigma").  Instantiation (that of Corr_ALMPANOC.v):
      - problem = with_defaults (vprob …) of the drv_solve family, provider mask = bits 1..7 of the driver's flags integer,
        wm_supplied = NaN vector (a supplied member poisons the caller's work buffers);
@@ -18,6 +21,11 @@
        the provider state persists across inner solves.  StructuredLBFGS's eval_grad_ψ is the SAME problem view the inner solver
        uses (AlmPanoc.o_grad_psi through AugLag's vtable model, for the y and Σ stored by initialize); the evaluations of its
        Hessian-vector term (ghost counter sd_hcalls, cumulative in the provider state) are added to the evaluation count;
+     - NewtonTRDirection exactly as Corr_PANTRDIR.v instantiates it (capability flags of the driver's problem, eval_hess_ψ_prod of
+       the VProblem, iteration-cap table, ε_mach = 2^-52), its eval_grad_ψ (finite differences) being the inner solver's own problem view
+       for the y and Σ stored by the `initialize` of the CURRENT inner solve; initial state ntr_new; the provider state persists across
+       inner solves (its only content besides y / Σ is the ghost list of Hessian products per apply call, which is added to the
+       evaluation count); the trust radius is NOT part of the world: every inner solve re-initialises it;
      - stop() injected at a cumulative evaluation / callback / direction-call index (direction calls are only counted by the driver
        for the scripted directions); the evaluations of ALM's automatic penalty initialisation precede the first inner solve;
      - clocks never expire; nanv = NaN.
@@ -28,8 +36,9 @@
    records of the earlier inner solves (chk_exception). *)
 From Coq Require Import Floats List ZArith Bool Arith.
 From Alpaqa Require Import Num NumF Vec Prox SolverStatus SolverKernels AugLag Lbfgs LMQR Panoc ZeroFpr Pantr FistaLoop Directions PanocDir ZeroFprDir
-     Alm AlmCompose AlmPanoc AlmZeroFpr AlmPantr AlmFista AlmPanocDir AlmZeroFprDir
-     Corr_PANOC Corr_ZEROFPR Corr_PANTR Corr_FISTA Corr_PANOCDIR Corr_ALMPANOC.
+     Steihaug DirectionsTR PantrDir
+     Alm AlmCompose AlmPanoc AlmZeroFpr AlmPantr AlmFista AlmPanocDir AlmZeroFprDir AlmPantrDir
+     Corr_PANOC Corr_ZEROFPR Corr_PANTR Corr_FISTA Corr_PANOCDIR Corr_PANTRDIR Corr_ALMPANOC.
 Import ListNotations.
 Local Open Scope float_scope.
 
@@ -39,7 +48,11 @@ Inductive stack :=
 | StkPantr (prm : trparams (T:=float)) (script : list nat) (initial : bool)         (* PANTRSolver<ScriptedTRDirection> *)
 | StkFista (prm : fparams (T:=float))                                               (* FISTASolver *)
 | StkDir (prm : Panoc.params (T:=float)) (sel : dirsel) (provide_hess : bool)       (* PANOCSolver<shipped provider> *)
-| StkZDir (prm : Panoc.params (T:=float)) (from_prox : bool) (sel : dirsel) (provide_hess : bool).   (* ZeroFPRSolver<shipped provider> *)
+| StkZDir (prm : Panoc.params (T:=float)) (from_prox : bool) (sel : dirsel) (provide_hess : bool)    (* ZeroFPRSolver<shipped provider> *)
+| StkTDir (prm : trparams (T:=float))                                                (* PANTRSolver<NewtonTRDirection> *)
+          (hvf : float) (fd : bool) (fdstep : float)                                 (* NewtonTRDirectionParams *)
+          (ts tsr tmax : float) (mitab : list Z)                                     (* SteihaugCGParams; mitab: nJ |-> (index_t) round(nJ * max_iter_factor) *)
+          (provide_hess : bool).
 
 (* one callback record as reported by the driver under ALM *)
 Inductive anyrec := RX (r : xrec) | RY (r : yrec) | RF (r : frec).
@@ -76,6 +89,9 @@ Definition dlog {D} (r : resultD D) : list anyrec :=
 
 Definition zdlog {D} (r : zresultD D) : list anyrec :=
   match r with ZDoneD _ o => map (fun r => RX (rec_of r)) (out_log (zo_out _ o)) | _ => [] end.
+
+Definition tdlog {D} (r : tresultD (T:=float) D) : list anyrec :=
+  match r with TDoneD _ o => map (fun r => RY (yrec_of r)) (to_log (tod_out _ o)) | _ => [] end.
 
 Definition run_sk (cs : skcase) : option ssum :=
   match cs with
@@ -163,6 +179,23 @@ Definition run_sk (cs : skcase) : option ssum :=
                               (vp_g n A d) (fun _ _ => [])
                               cbrt_eps64 hvf fd full use_scaled)
                   struct_unsized (fun s => sd_hcalls s)
+          end
+      | StkTDir prm hvf fd fdstep ts tsr tmax mitab ph =>
+          (* the real provider does not report direction calls to the driver; Hessian products / finite-difference gradients made inside
+             apply are not events of the loop model: no evaluation-index injection for this stack (the check converts it to a callback index) *)
+          let stopd := fun cn : counters => after se (evals_of m cn + off) || after sc (c_cb cn) in
+          match alm_pantr_dir Pb prov wm clb cub l1 split (ntrstate float)
+                              (newton_tr_dir clb cub l1
+                                             true ph ph (Nat.eqb m 0)      (* BoxConstrProblem: inactive indices; VProblem: Hessian members iff provide_hess *)
+                                             (fun x y Σ => AlmPanoc.o_grad_psi Pb prov y Σ x)   (* problem.eval_grad_ψ: the inner solver's own problem view *)
+                                             (vp_hess_psi_prod n Q w A d Dlb Dub)
+                                             hvf fd fdstep ts tsr (ub_of_float tmax) (fun nJ => nth nJ mitab 0%Z) eps64)
+                              stopd (fun _ => false) (fun _ => false) prm ap lsfuel fuel ntr_new ofuel nan Σ0 y0 x0 with
+          | None => None
+          | Some co =>
+              let cn := fst (co_w co) in
+              Some (mkSS (co_final co) (co_x co) (evals_of m cn + hcostT m fd * nsum (nt_prods (snd (co_w co))) + off + post) 0 (c_cb cn)
+                         (recs_of tdlog (co_logs co) (co_trace co)))
           end
       end
   end.
